@@ -788,6 +788,72 @@ func ruleC13Member(r *Run) {
 	fm := w.Fn("rux", "formatMethods")
 	up := len(callsToName(fm, "strings.ToUpper")) > 0
 	r.Check(rule, "rux.formatMethods:upper-case", fm.Pos(), up, "method names are upper-cased at route creation (lookup upper-cases in Match)")
+	// the default method stands in for an ABSENT list only: a one-element literal built from a default
+	// (a string parameter, or the constant GET) in a function that takes the caller's []string list is
+	// reached only under len(<that parameter>) == 0 — never after names were filtered out of the list,
+	// which would turn a definition with only empty method names into a live GET route
+	getC, _ := constString(w.Const("rux", "GET").Value)
+	nDef := 0
+	for _, f := range w.Funcs {
+		if f.Pkg == nil || f.Pkg.Pkg.Path() != modPath || f.Parent() != nil {
+			continue
+		}
+		var listP *ssa.Parameter
+		for _, prm := range f.Params {
+			if sl, ok := prm.Type().Underlying().(*types.Slice); ok {
+				if b, ok := sl.Elem().Underlying().(*types.Basic); ok && b.Kind() == types.String {
+					listP = prm
+				}
+			}
+		}
+		if listP == nil {
+			continue
+		}
+		eachInstr(f, func(in ssa.Instruction) {
+			sl, ok := in.(*ssa.Slice)
+			if !ok {
+				return
+			}
+			el := litElems(sl)
+			if len(el) != 1 {
+				return
+			}
+			isDef := false
+			if prm, isP := el[0].(*ssa.Parameter); isP && prm != listP {
+				if b, okb := prm.Type().Underlying().(*types.Basic); okb && b.Kind() == types.String {
+					isDef = true
+				}
+			}
+			if sv, isC := constString(el[0]); isC && sv == getC {
+				isDef = true
+			}
+			if !isDef {
+				return
+			}
+			nDef++
+			okAbsent := factHolds(in, func(cond ssa.Value, truth bool) bool {
+				b, okb := cond.(*ssa.BinOp)
+				if !okb {
+					return false
+				}
+				call, isCall := b.X.(*ssa.Call)
+				if !isCall || !isBuiltin(call, "len") || call.Call.Args[0] != ssa.Value(listP) {
+					return false
+				}
+				k, okk := constInt(b.Y)
+				if !okk {
+					return false
+				}
+				op := b.Op
+				if !truth {
+					op = negOp(op)
+				}
+				return (op == token.EQL && k == 0) || (op == token.LEQ && k == 0) || (op == token.LSS && k == 1)
+			})
+			r.Check(rule, FuncName(f)+":default method only for an absent list", w.InstrPos(in), okAbsent, map[bool]string{true: "the default method replaces a list the caller did not give (len(parameter) == 0)", false: "the default method is substituted on a condition other than 'the caller gave no methods' (e.g. after empty names were filtered out): a definition whose method names are all empty becomes a live route instead of being rejected"}[okAbsent])
+		})
+	}
+	r.Exists(rule, "default-method literal", token.NoPos, nDef >= 1, fmt.Sprintf("%d site(s) where a default method list is built", nDef))
 }
 
 func calleesOf(w *World, f *ssa.Function) []*ssa.Function {
